@@ -115,6 +115,11 @@ def concrete_operator(kind, cfg, rng, n=None, dims=None):
             for i in range(ar):
                 r = int(rng.integers(1, 4))
                 ds.append((r, r) if (sqr or kind == "KronSum") else (r, int(rng.integers(1, 4))))
+            if kind == "BlockDiag" and not sqr and cfg.get("square_total", False) and ar >= 2:
+                a_, b_ = int(rng.integers(1, 4)), int(rng.integers(1, 4))
+                if a_ == b_:
+                    b_ = a_ + 1
+                ds = [(a_, b_), (b_, a_)] + [(int(rng.integers(1, 3)),) * 2 for _ in range(ar - 2)]
             if kind == "Kronecker" and not sqr and cfg.get("square_total", False) and ar >= 2:
                 # non-square factors with a SQUARE product (the functions that take such a witness require a square operand): (a x b) (x) (b x a) (x) squares
                 a_, b_ = int(rng.integers(1, 4)), int(rng.integers(1, 4))
